@@ -19,6 +19,8 @@ type G struct {
 	// Hostile draws payloads (values, elements, members, fields) mostly from byte strings that
 	// break the reply framing unless they are sent as bulk strings (C03)
 	Hostile bool
+	// Cluster draws payloads mostly from byte strings a lossy re-encoding would damage (C14)
+	Cluster bool
 }
 
 var keyAlphabet = []string{"k", "K", "Foo", "foo", "", "a b", "k\r\n", "\x00\xff", strings.Repeat("L", 200), "kk", "z1", "*", "a?c", "[x]"}
@@ -57,9 +59,20 @@ func isPayloadAlphabet(xs []string) bool {
 	return false
 }
 
+// clusterPayloads are the byte strings a lossy re-encoding of replicated commands would damage.
+var clusterPayloads = []string{"", " ", "a b", " lead", "trail ", "a  b", "\t", "\r\n", "\"", "\\", "\u00e9", "\xff\xfe", "\x80", "\x00", "x y z", "  ", "a\nb", "{\"k\":1}", "SET", "null"}
+
 func (g *G) pick(xs []string) string {
 	if g.Hostile && isPayloadAlphabet(xs) && g.R.Intn(10) < 7 {
 		return hostilePayloads[g.R.Intn(len(hostilePayloads))]
+	}
+	if g.Cluster && isPayloadAlphabet(xs) && g.R.Intn(10) < 6 {
+		if g.R.Intn(60) == 0 {
+			b := make([]byte, 64*1024)
+			g.R.Read(b)
+			return string(b)
+		}
+		return clusterPayloads[g.R.Intn(len(clusterPayloads))]
 	}
 	return xs[g.R.Intn(len(xs))]
 }
@@ -777,11 +790,22 @@ func farTTL(cmd Cmd) Cmd {
 // FMixed draws every step from a randomly chosen family, with frame-breaking payloads and keys (C03).
 const FMixed = "mixed"
 
+// FCluster mixes every family with arguments that a lossy re-encoding of replicated commands would damage (C14).
+const FCluster = "cluster"
+
 var hostileKeys = []string{"k\r\n", "a\r\nb", "+OK", "$-1", "\r\n", "k", "", ":1"}
 
 // Program generates one program of the family: optional prelude and steps.
 func Program(r *rand.Rand, family string, maxSteps int) []Cmd {
 	g := New(r)
+	if family == FCluster {
+		g.Cluster = true
+		g.Keys = nil
+		ck := []string{"k", "a b", "", " ", "K", "k\r\n", "\xff\xfe", "\u00e9", "x  y", "tr "}
+		for _, i := range r.Perm(len(ck))[:4] {
+			g.Keys = append(g.Keys, ck[i])
+		}
+	}
 	if family == FMixed {
 		g.Hostile = true
 		g.Keys = nil
@@ -804,7 +828,7 @@ func Program(r *rand.Rand, family string, maxSteps int) []Cmd {
 	}
 	for i := 0; i < n; i++ {
 		fam := family
-		if family == FMixed {
+		if family == FMixed || family == FCluster {
 			fam = []string{FString, FList, FHash, FSet, FZSet, FStream}[r.Intn(6)]
 		}
 		switch fam {
